@@ -164,10 +164,16 @@ def cleanup_scratch():
             shutil.rmtree(d, ignore_errors=True)
 
 
-def run_single(exe, args, case_id, timeout=300, wrapper=None):
+def run_single(exe, args, case_id, timeout=3600, wrapper=None):
+    """One case alone.  The harness applies its own per-case limit (alarm) and reports "timeout" itself; the limit here is
+    only a backstop and also counts as a timeout of the case."""
     res = Result()
-    r = subprocess.run((wrapper or []) + [exe] + args + ["--case", str(case_id)], stdout=subprocess.PIPE, stderr=subprocess.PIPE,
-                       env=env(), timeout=timeout)
+    try:
+        r = subprocess.run((wrapper or []) + [exe] + args + ["--case", str(case_id)], stdout=subprocess.PIPE, stderr=subprocess.PIPE,
+                           env=env(), timeout=timeout)
+    except subprocess.TimeoutExpired:
+        res.failures.append({"id": case_id, "sig": "timeout", "text": "no result within %d s when run alone" % timeout, "crash": True})
+        return res
     parse_protocol(r.stdout.decode("latin-1"), res)
     return res
 
